@@ -172,6 +172,15 @@ def rule_g(ctx):
              and any(isinstance(s, ast.Return) and A.is_const(s.value, True) for s in n.body) for n in fn.body
              if isinstance(n, ast.If) and isinstance(n.test, ast.Compare))
     rep.ob('G', K.key(cls, 'check', 'no-reserve=>always-cache'), ok, fn, '')
+    gm = cls.resolve('_get_memory_size')
+    if gm is not None and gm.is_function:
+        pct = [n for n in A.walk_local(gm.node) if isinstance(n, ast.Return) and n.value is not None
+               and any(isinstance(x, ast.Call) and (A.dotted(x.func) or '').endswith('virtual_memory') for x in ast.walk(n.value))]
+        okp = bool(pct) and all(any(isinstance(x, ast.Attribute) and x.attr == 'total' and isinstance(x.value, ast.Call)
+                                    for x in ast.walk(r.value)) for r in pct)
+        rep.ob('G', K.key(cls, '_get_memory_size', 'percent-is-relative-to-total-memory'), okp, pct[0] if pct else gm.node,
+               '' if okp else 'a percentage for keep_mem_free is documented as a share of the machine\'s total memory; it is '
+               'computed from another quantity, so the threshold moves with the memory that happens to be free at construction')
     # the latch attribute is only ever set to False (never reset)
     resets = []
     for c in [cls] + ctx.repo.subclasses(cls):
